@@ -120,7 +120,16 @@ func compositionAcrossFiles(c *engine.Ctx, fails *int) []*core.PResult {
 			uses := r.Range(1, 3)
 			for u := 0; u < uses; u++ {
 				name := fmt.Sprintf("u%d", u)
-				switch r.Intn(4) {
+				switch r.Intn(6) {
+				case 4, 5:
+					// the definition first, then an inline branch with a property of this use only: the definition is
+					// shared by the uses, the inline branches are not
+					own := fmt.Sprintf("x%d_%d", k, u)
+					br := g.ObjBranch([]string{own})
+					if kind == "anyOf" {
+						br["required"] = []any{own}
+					}
+					props[name] = sgen.M{kind: []any{sgen.M{"$ref": "#/$defs/Base"}, br}}
 				case 0:
 					props[name] = sgen.M{"$ref": "#/$defs/Base"}
 				case 1:
@@ -172,6 +181,9 @@ func compositionAcrossFiles(c *engine.Ctx, fails *int) []*core.PResult {
 		inlineRoot := inlineOf(0)
 		flat := flatten(sgen.DeepCopy(inlineRoot)).(sgen.M)
 		docs := append([]any{g.FullSample(flat, 0)}, g.Docs(flat, 10)...)
+		// … and documents in which every use also carries the members of its sibling uses, once as they are and once with
+		// a value of another JSON type: what one use declares must not leak into another through the shared definition
+		docs = append(docs, crossPollinate(g.FullSample(flat, 0), false), crossPollinate(g.FullSample(flat, 0), true))
 		files := map[string][]byte{}
 		var mainSchema sgen.M
 		for k, f := range fs {
@@ -237,6 +249,51 @@ func compositionAcrossFiles(c *engine.Ctx, fails *int) []*core.PResult {
 		}
 	}
 	return res
+}
+
+// crossPollinate gives every object-valued member of every object in the document the members its sibling objects
+// have and it lacks (twisted: with a value of another JSON type).
+func crossPollinate(doc any, twisted bool) any {
+	switch t := doc.(type) {
+	case map[string]any:
+		union := map[string]any{}
+		for _, v := range t {
+			if o, ok := v.(map[string]any); ok {
+				for k, x := range o {
+					if _, isObj := x.(map[string]any); !isObj {
+						union[k] = x
+					}
+				}
+			}
+		}
+		out := map[string]any{}
+		for k, v := range t {
+			w := crossPollinate(v, twisted)
+			if o, ok := w.(map[string]any); ok {
+				for uk, ux := range union {
+					if _, has := o[uk]; !has {
+						if twisted {
+							if _, isStr := ux.(string); isStr {
+								ux = 7
+							} else {
+								ux = "§"
+							}
+						}
+						o[uk] = ux
+					}
+				}
+			}
+			out[k] = w
+		}
+		return out
+	case []any:
+		out := make([]any, len(t))
+		for i, v := range t {
+			out[i] = crossPollinate(v, twisted)
+		}
+		return out
+	}
+	return doc
 }
 
 // symlinkLayouts (C10, "file resolution relative to the referring document, symlinks"): the referenced document
